@@ -179,6 +179,11 @@ impl RawAutomaton {
     /// bytes. The alphabet size can be specified, which effectively filters
     /// out any transition involving a byte outside of the alphabet.
     pub(super) fn byte_concat(word: &[Vec<Letter>], alphabet_size: usize) -> Self {
+        // An empty range of bytes (within the alphabet) makes the whole language empty; the
+        // chain of states built below would then only consist of dead states.
+        if word.iter().any(|range| !range.iter().any(|b| (b.char as usize) < alphabet_size)) {
+            return Self::empty();
+        }
         let mut transitions = word
             .iter()
             .map(Vec::len)
